@@ -547,37 +547,127 @@ Proof.
       rewrite Nat.eqb_refl. reflexivity.
 Qed.
 
-(* the in-place update of post_init: every listed object is scaled exactly once, no other changes *)
-Lemma scale_fold : forall m refs h, NoDup refs ->
-  let h' := fold_left (fun h' i => h_set h' i (scale_rule m (h_get h' i))) refs h in
-  h_next h' = h_next h /\
-  (forall j, ~ In j refs -> h_get h' j = h_get h j) /\
-  (forall i, In i refs -> h_get h' i = scale_rule m (h_get h i)).
+(* ---- an operation that only allocates: every existing object is left as it is *)
+Definition frame (h h' : heap) : Prop :=
+  (h_next h <= h_next h')%nat /\ forall j, (j < h_next h)%nat -> h_get h' j = h_get h j.
+
+Lemma frame_refl : forall h, frame h h.
+Proof. intros h. split; [lia|auto]. Qed.
+
+Lemma frame_trans : forall h1 h2 h3, frame h1 h2 -> frame h2 h3 -> frame h1 h3.
 Proof.
-  induction refs as [|i rest IH]; intros h Hnd; cbn [fold_left].
-  - repeat split; auto. intros i [].
-  - inversion Hnd as [|x l Hnotin Hnd']; subst.
-    destruct (IH (h_set h i (scale_rule m (h_get h i))) Hnd') as [Hn [Hout Hin]].
-    cbv zeta. repeat split.
-    + rewrite Hn. reflexivity.
-    + intros j Hj. rewrite Hout by (intro; apply Hj; right; assumption).
-      rewrite h_get_set. destruct (Nat.eqb j i) eqn:E; [|reflexivity].
-      apply Nat.eqb_eq in E. subst. exfalso. apply Hj. left. reflexivity.
-    + intros j [He|Hj].
-      * subst j. rewrite Hout by exact Hnotin. rewrite h_get_set, Nat.eqb_refl. reflexivity.
-      * rewrite Hin by exact Hj. rewrite h_get_set. destruct (Nat.eqb j i) eqn:E; [|reflexivity].
-        apply Nat.eqb_eq in E. subst. contradiction.
+  intros h1 h2 h3 [Hn1 Hg1] [Hn2 Hg2]. split; [lia|]. intros j Hj. rewrite Hg2 by lia. apply Hg1. exact Hj.
 Qed.
 
-Lemma post_init_ok : forall m refs h, NoDup refs -> NoDup (map r_name (deref h refs)) ->
-  exists h', post_init m refs h = Ok h' /\ h_next h' = h_next h /\
-             (forall j, ~ In j refs -> h_get h' j = h_get h j) /\
-             deref h' refs = map (scale_rule m) (deref h refs).
+Lemma frame_deref : forall h h' refs, frame h h' -> (forall i, In i refs -> (i < h_next h)%nat) -> deref h' refs = deref h refs.
+Proof. intros h h' refs [_ Hg] Hlt. apply deref_ext. intros i Hi. apply Hg. apply Hlt. exact Hi. Qed.
+
+(* the repaired __post_init__: one new object per rule given, holding the scaled rule; no object
+   that existed before is changed *)
+Lemma scaled_copies_ok : forall m refs h h' own, scaled_copies m refs h = (h', own) ->
+  (forall i, In i refs -> (i < h_next h)%nat) ->
+  own = seq (h_next h) (length refs) /\ h_next h' = (h_next h + length refs)%nat /\
+  (forall j, (j < h_next h)%nat -> h_get h' j = h_get h j) /\
+  deref h' own = map (scale_rule m) (deref h refs).
 Proof.
-  intros m refs h Hnd Hnames. unfold post_init. rewrite (nodupb_NoDup _ Hnames).
-  destruct (scale_fold m refs h Hnd) as [Hn [Hout Hin]].
-  eexists. split; [reflexivity|]. split; [exact Hn|]. split; [exact Hout|].
-  unfold deref. rewrite map_map. apply map_ext_in. exact Hin.
+  induction refs as [|i rest IH]; intros h h' own Hs Hlt; cbn [scaled_copies] in Hs.
+  - inversion Hs; subst. cbn. repeat split; auto.
+  - unfold h_new in Hs.
+    set (h1 := mkHeap (S (h_next h)) (fun j => if Nat.eqb j (h_next h) then scale_rule m (h_get h i) else h_get h j)) in Hs.
+    destruct (scaled_copies m rest h1) as [h2 out] eqn:E. inversion Hs; subst h' own; clear Hs.
+    assert (Hlt1 : forall x, In x rest -> (x < h_next h1)%nat).
+    { intros x Hx. subst h1. cbn [h_next]. specialize (Hlt x (or_intror Hx)). lia. }
+    destruct (IH h1 h2 out E Hlt1) as [Hout [Hn [Hfr Hd]]].
+    subst h1. cbn [h_next h_get] in *. cbn [length seq]. repeat split.
+    + rewrite Hout. reflexivity.
+    + lia.
+    + intros j Hj. rewrite Hfr by lia. destruct (Nat.eqb j (h_next h)) eqn:Ej; [|reflexivity].
+      apply Nat.eqb_eq in Ej. lia.
+    + unfold deref in *. cbn [h_get] in Hd. cbn [map]. rewrite Hd. f_equal.
+      * rewrite Hfr by lia. rewrite Nat.eqb_refl. reflexivity.
+      * f_equal. apply map_ext_in. intros x Hx. specialize (Hlt x (or_intror Hx)).
+        destruct (Nat.eqb x (h_next h)) eqn:Ex; [|reflexivity]. apply Nat.eqb_eq in Ex. lia.
+Qed.
+
+Lemma map_name_scale : forall m l, map r_name (map (scale_rule m) l) = map r_name l.
+Proof. intros m l. rewrite map_map. apply map_ext. intros r. reflexivity. Qed.
+
+Lemma ruleset_init_ok : forall refs m h, (forall i, In i refs -> (i < h_next h)%nat) ->
+  NoDup (map r_name (deref h refs)) ->
+  exists h' rs, ruleset_init refs m h = Ok (h', rs) /\ frame h h' /\
+    rs_rules rs = seq (h_next h) (length refs) /\ rs_given rs = refs /\ rs_mults rs = m /\
+    h_next h' = (h_next h + length refs)%nat /\
+    deref h' (rs_rules rs) = map (scale_rule m) (deref h refs).
+Proof.
+  intros refs m h Hlt Hnames. unfold ruleset_init, post_init.
+  destruct (scaled_copies m refs h) as [h' own] eqn:E.
+  destruct (scaled_copies_ok m refs h h' own E Hlt) as [Hown [Hn [Hfr Hd]]].
+  rewrite Hd, map_name_scale, (nodupb_NoDup _ Hnames).
+  exists h', (mkRs own refs m). cbn [rs_rules rs_given rs_mults].
+  split; [reflexivity|]. split; [split; [lia|exact Hfr]|]. repeat split; auto.
+Qed.
+
+(* what a ruleset is: its own objects are distinct and hold, NOW, the rules [w] it was given times
+   its own multipliers; the objects it was given still hold [w] *)
+Definition holds (h : heap) (rs : ruleset) (w : list rule) : Prop :=
+  (forall i, In i (rs_rules rs) -> (i < h_next h)%nat) /\
+  (forall i, In i (rs_given rs) -> (i < h_next h)%nat) /\
+  NoDup (rs_rules rs) /\ length (rs_given rs) = length (rs_rules rs) /\
+  deref h (rs_given rs) = w /\
+  deref h (rs_rules rs) = map (scale_rule (rs_mults rs)) w.
+
+Lemma holds_frame : forall h h' rs w, holds h rs w -> frame h h' -> holds h' rs w.
+Proof.
+  intros h h' rs w [Ho [Hg [Hnd [Hlen [Hdg Hdo]]]]] Hf. destruct Hf as [Hn Hfr].
+  repeat split; auto.
+  - intros i Hi. specialize (Ho i Hi). lia.
+  - intros i Hi. specialize (Hg i Hi). lia.
+  - rewrite <- Hdg. apply frame_deref; [split; assumption|exact Hg].
+  - rewrite <- Hdo. apply frame_deref; [split; assumption|exact Ho].
+Qed.
+
+Lemma ruleset_init_holds : forall refs m h, (forall i, In i refs -> (i < h_next h)%nat) ->
+  NoDup (map r_name (deref h refs)) ->
+  exists h' rs, ruleset_init refs m h = Ok (h', rs) /\ frame h h' /\ holds h' rs (deref h refs) /\ rs_mults rs = m.
+Proof.
+  intros refs m h Hlt Hnames.
+  destruct (ruleset_init_ok refs m h Hlt Hnames) as [h' [rs [Hi [Hf [Hown [Hgiven [Hm [Hn Hd]]]]]]]].
+  exists h', rs. split; [exact Hi|]. split; [exact Hf|]. split; [|exact Hm].
+  unfold holds. rewrite Hown, Hgiven, Hm. rewrite Hown in Hd. repeat split.
+  - intros i Hi'. apply in_seq in Hi'. lia.
+  - intros i Hi'. specialize (Hlt i Hi'). lia.
+  - apply seq_NoDup.
+  - rewrite seq_length. reflexivity.
+  - apply frame_deref; assumption.
+  - exact Hd.
+Qed.
+
+(* copy_with_replacements: an object of the instance is replaced by the object given for it *)
+Lemma given_of_In : forall own given i, length given = length own -> In i own -> In (given_of own given i) given.
+Proof.
+  induction own as [|o own IH]; intros given i Hlen Hi; [destruct Hi|].
+  destruct given as [|g given]; [discriminate|]. cbn [given_of].
+  destruct (Nat.eqb i o) eqn:E; [left; reflexivity|]. right. apply IH; [cbn in Hlen; lia|].
+  destruct Hi as [Hi|Hi]; [subst; rewrite Nat.eqb_refl in E; discriminate|exact Hi].
+Qed.
+
+Lemma given_of_filter : forall h (p : rule -> bool) m own given,
+  NoDup own -> deref h own = map (scale_rule m) (deref h given) -> (forall r, p (scale_rule m r) = p r) ->
+  deref h (map (given_of own given) (filter (fun i => p (h_get h i)) own)) = filter p (deref h given).
+Proof.
+  intros h p m. induction own as [|o own IH]; intros given Hnd Hd Hp.
+  - destruct given; [reflexivity|discriminate].
+  - destruct given as [|g given]; [discriminate|].
+    unfold deref in Hd. cbn [map] in Hd. inversion Hd as [[Ho Hrest]]. inversion Hnd as [|x l Hnotin Hnd']; subst.
+    assert (Htail : map (given_of (o :: own) (g :: given)) (filter (fun i => p (h_get h i)) own)
+                    = map (given_of own given) (filter (fun i => p (h_get h i)) own)).
+    { apply map_ext_in. intros i Hi. apply filter_In in Hi. destruct Hi as [Hi _]. cbn [given_of].
+      destruct (Nat.eqb i o) eqn:E; [|reflexivity]. apply Nat.eqb_eq in E. subst. contradiction. }
+    cbn [filter]. rewrite Ho, Hp. unfold deref at 2. cbn [map filter]. fold (deref h given).
+    destruct (p (h_get h g)).
+    + cbn [map]. rewrite Htail. unfold deref at 1. cbn [map given_of]. rewrite Nat.eqb_refl. f_equal.
+      apply (IH given Hnd' Hrest Hp).
+    + rewrite Htail. apply (IH given Hnd' Hrest Hp).
 Qed.
 
 Lemma deref_filter : forall h (p : rule -> bool) refs,
@@ -634,9 +724,8 @@ Definition exp_key (files : list (list rule)) (k : key) : list rule :=
 
 Definition cache_inv (files : list (list rule)) (st : state) : Prop :=
   forall k rs, In (k, rs) (st_cache st) ->
-    (forall i, In i (rs_rules rs) -> (i < h_next (st_heap st))%nat) /\
-    rs_mults rs = k_mults k /\
-    deref (st_heap st) (rs_rules rs) = exp_key files k.
+    holds (st_heap st) rs (select (k_names k) (k_cats k) (rule_files files (k_strict k))) /\
+    rs_mults rs = k_mults k.
 
 Definition files_ok (files : list (list rule)) : Prop := forall s, NoDup (map r_name (rule_files files s)).
 
@@ -648,68 +737,92 @@ Proof.
   destruct cs; [exact H1|]. apply NoDup_map_filter. exact H1.
 Qed.
 
-Lemma NoDup_filter_nat : forall (p : nat -> bool) l, NoDup l -> NoDup (filter p l).
+(* the two filters of get_ruleset (names, then categories) as one filter, on rules and on objects *)
+Lemma filter_true {A} (l : list A) : filter (fun _ => true) l = l.
+Proof. induction l as [|a l IH]; cbn; [reflexivity|]. rewrite IH. reflexivity. Qed.
+
+Lemma filter_filter_and {A} (f g : A -> bool) l : filter f (filter g l) = filter (fun x => g x && f x) l.
 Proof.
-  intros p. induction l as [|a l IH]; cbn; intros H; [constructor|].
-  inversion H as [|x y Hn Hd]; subst. destruct (p a); [|apply IH; exact Hd].
-  constructor; [|apply IH; exact Hd]. intros Hin. apply filter_In in Hin. tauto.
+  induction l as [|a l IH]; cbn; [reflexivity|].
+  destruct (g a); cbn; [destruct (f a)|]; rewrite IH; reflexivity.
+Qed.
+
+Lemma select_gen {A} (f : A -> rule) ns cs (l : list A) :
+  match cs with
+  | [] => match ns with [] => l | _ => filter (fun i => mem (r_name (f i)) ns) l end
+  | _ => filter (fun i => mem (r_cat (f i)) cs) (match ns with [] => l | _ => filter (fun i => mem (r_name (f i)) ns) l end)
+  end = filter (fun i => selected ns cs (f i)) l.
+Proof.
+  unfold selected. destruct ns as [|n ns]; destruct cs as [|c cs].
+  - symmetry. apply filter_true.
+  - apply filter_ext_in'. intros a _. reflexivity.
+  - apply filter_ext_in'. intros a _. rewrite andb_true_r. reflexivity.
+  - apply filter_filter_and.
+Qed.
+
+Lemma select_filter ns cs base : select ns cs base = filter (selected ns cs) base.
+Proof. unfold select. exact (select_gen (fun r => r) ns cs base). Qed.
+
+(* a sub-selection of a ruleset by a condition on name / category, copied with any multipliers *)
+Lemma copy_filter_ok : forall h rs w (p : rule -> bool) m,
+  holds h rs w -> NoDup (map r_name w) -> (forall m' r, p (scale_rule m' r) = p r) ->
+  exists h' rs', copy_with_replacements rs (filter (fun i => p (h_get h i)) (rs_rules rs)) m h = Ok (h', rs') /\
+                 frame h h' /\ holds h' rs' (filter p w) /\ rs_mults rs' = m.
+Proof.
+  intros h rs w p m [Ho [Hg [Hnd [Hlen [Hdg Hdo]]]]] Hw Hp. unfold copy_with_replacements.
+  set (refs := map (given_of (rs_rules rs) (rs_given rs)) (filter (fun i => p (h_get h i)) (rs_rules rs))).
+  assert (Hd : deref h refs = filter p w).
+  { unfold refs. rewrite <- Hdg. apply (given_of_filter h p (rs_mults rs)); [exact Hnd| |apply Hp].
+    rewrite Hdo, Hdg. reflexivity. }
+  assert (Hlt : forall i, In i refs -> (i < h_next h)%nat).
+  { intros i Hi. unfold refs in Hi. apply in_map_iff in Hi. destruct Hi as [x [Hx Hin]]. subst i.
+    apply filter_In in Hin. destruct Hin as [Hin _]. apply Hg. apply given_of_In; assumption. }
+  destruct (ruleset_init_holds refs m h Hlt) as [h' [rs' [Hi [Hf [Hh Hm]]]]].
+  { rewrite Hd. apply NoDup_map_filter. exact Hw. }
+  exists h', rs'. rewrite Hd in Hh. auto.
+Qed.
+
+Lemma from_files_ok : forall base m h, NoDup (map r_name base) ->
+  exists h' rs, from_files base m h = Ok (h', rs) /\ frame h h' /\ holds h' rs base /\ rs_mults rs = m.
+Proof.
+  intros base m h Hb. unfold from_files.
+  destruct (parse_rules_ok unit_mults base [] h Hb) as [h1 [Hp [Hn1 [Hfr1 Hd1]]]].
+  { intros x _ []. }
+  rewrite Hp. rewrite map_scale_rule_unit in Hd1.
+  destruct (ruleset_init_holds (seq (h_next h) (length base)) m h1) as [h' [rs [Hi [Hf [Hh Hm]]]]].
+  { intros i Hi. apply in_seq in Hi. lia. }
+  { rewrite Hd1. exact Hb. }
+  exists h', rs. rewrite Hd1 in Hh. split; [exact Hi|]. split; [|auto].
+  apply (frame_trans h h1 h'); [split; [lia|exact Hfr1]|exact Hf].
 Qed.
 
 Lemma get_ruleset_step : forall files st q, files_ok files -> cache_inv files st ->
   (mults_valid (effective q) = false /\ get_ruleset files st q = Err E_Value) \/
   (exists st' rs, get_ruleset files st q = Ok (st', rs) /\ cache_inv files st' /\
                   In (key_of q, rs) (st_cache st') /\
-                  (forall e, In e (st_cache st) -> In e (st_cache st'))).
+                  (forall e, In e (st_cache st) -> In e (st_cache st')) /\
+                  frame (st_heap st) (st_heap st')).
 Proof.
   intros files st q Hfiles Hinv. unfold get_ruleset.
   destruct (mults_valid (effective q)) eqn:Ev; cbn [negb]; [right|left; split; reflexivity].
   destruct (cache_get (key_of q) (st_cache st)) as [rs|] eqn:Ec.
-  { exists st, rs. split; [reflexivity|]. split; [exact Hinv|]. split; [apply cache_get_In; exact Ec|auto]. }
+  { exists st, rs. split; [reflexivity|]. split; [exact Hinv|]. split; [apply cache_get_In; exact Ec|].
+    split; [auto|apply frame_refl]. }
   set (base := rule_files files (q_strict q)).
   assert (Hb : NoDup (map r_name base)) by apply Hfiles.
-  set (h := st_heap st).
-  destruct (parse_rules_ok unit_mults base [] h Hb) as [h1 [Hp [Hn1 [Hfr1 Hd1]]]].
-  { intros x _ []. }
-  unfold from_files. rewrite Hp. unfold ruleset_init.
-  set (refs := seq (h_next h) (length base)) in *.
-  assert (Hndr : NoDup refs) by apply seq_NoDup.
-  rewrite map_scale_rule_unit in Hd1.
-  destruct (post_init_ok unit_mults refs h1 Hndr) as [h1' [Hpi [Hn1' [Hout1 Hd1']]]].
-  { rewrite Hd1. exact Hb. }
-  rewrite Hpi. cbn [rs_rules].
-  rewrite Hd1, map_scale_rule_unit in Hd1'.
-  (* the selection, on the objects and on the rules *)
-  set (by_name := match q_names q with [] => refs | _ => filter (fun i => mem (r_name (h_get h1' i)) (q_names q)) refs end).
-  set (by_cat := match q_cats q with [] => by_name | _ => filter (fun i => mem (r_cat (h_get h1' i)) (q_cats q)) by_name end).
-  assert (Hsel : deref h1' by_cat = select (q_names q) (q_cats q) base).
-  { unfold select, by_cat, by_name.
-    assert (H1 : deref h1' (match q_names q with [] => refs | _ => filter (fun i => mem (r_name (h_get h1' i)) (q_names q)) refs end)
-                 = match q_names q with [] => base | _ => filter (fun r => mem (r_name r) (q_names q)) base end).
-    { destruct (q_names q); [exact Hd1'|].
-      rewrite (deref_filter h1' (fun r => mem (r_name r) (z :: l))). rewrite Hd1'. reflexivity. }
-    destruct (q_cats q); [exact H1|].
-    rewrite (deref_filter h1' (fun r => mem (r_cat r) (z :: l))). rewrite H1. reflexivity. }
-  assert (Hsub : forall i, In i by_cat -> In i refs).
-  { intros i Hi. unfold by_cat, by_name in Hi.
-    destruct (q_cats q); destruct (q_names q); repeat (apply filter_In in Hi; destruct Hi as [Hi _]); exact Hi. }
-  assert (Hnd2 : NoDup by_cat).
-  { unfold by_cat, by_name. destruct (q_cats q); destruct (q_names q); repeat apply NoDup_filter_nat; exact Hndr. }
-  unfold copy_with_replacements, ruleset_init.
-  destruct (post_init_ok (effective q) by_cat h1' Hnd2) as [h2 [Hpi2 [Hn2 [Hout2 Hd2]]]].
-  { rewrite Hsel. apply select_names_nodup. exact Hb. }
-  rewrite Hpi2. eexists. eexists. split; [reflexivity|].
-  assert (Hold : forall j, (j < h_next h)%nat -> h_get h2 j = h_get h j).
-  { intros j Hj. rewrite Hout2.
-    - rewrite Hout1; [apply Hfr1; exact Hj|]. intros Hin. apply seq_lt in Hin. lia.
-    - intros Hin. apply Hsub in Hin. apply seq_lt in Hin. lia. }
-  split; [|split; [left; reflexivity|intros e He; right; exact He]].
-  intros k rs [He|Hin]; cbn [st_heap st_cache] in *.
-  - inversion He; subst k rs. cbn [rs_rules rs_mults]. split; [|split; [reflexivity|]].
-    + intros i Hi. apply Hsub in Hi. apply seq_lt in Hi. lia.
-    + rewrite Hd2, Hsel. reflexivity.
-  - destruct (Hinv k rs Hin) as [Hlt [Hm Hd]]. split; [|split; [exact Hm|]].
-    + intros i Hi. specialize (Hlt i Hi). fold h in Hlt. lia.
-    + rewrite <- Hd. apply deref_ext. intros i Hi. apply Hold. apply Hlt. exact Hi.
+  destruct (from_files_ok base unit_mults (st_heap st) Hb) as [h1 [rs0 [Hff [Hf1 [Hh0 Hm0]]]]].
+  rewrite Hff.
+  (* the selection, on the objects *)
+  rewrite (select_gen (h_get h1) (q_names q) (q_cats q) (rs_rules rs0)).
+  destruct (copy_filter_ok h1 rs0 base (selected (q_names q) (q_cats q)) (effective q) Hh0 Hb) as [h2 [rs [Hc [Hf2 [Hh Hm]]]]].
+  { intros m' r. reflexivity. }
+  rewrite Hc. exists (mkState h2 ((key_of q, rs) :: st_cache st)), rs.
+  assert (Hf : frame (st_heap st) h2) by (apply (frame_trans _ h1 _); assumption).
+  split; [reflexivity|]. split; [|split; [left; reflexivity|split; [intros e He; right; exact He|exact Hf]]].
+  intros k rs' [He|Hin]; cbn [st_heap st_cache] in *.
+  - inversion He; subst k rs'. cbn [k_names k_cats k_strict k_mults key_of]. split; [|exact Hm].
+    rewrite select_filter. exact Hh.
+  - destruct (Hinv k rs' Hin) as [Hh' Hm']. split; [|exact Hm']. apply (holds_frame _ _ _ _ Hh' Hf).
 Qed.
 
 Lemma cache_inv_init : forall files, cache_inv files init_state.
@@ -730,7 +843,7 @@ Lemma run_requests_inv : forall files qs st st2 outs, files_ok files -> cache_in
 Proof.
   intros files. induction qs as [|q rest IH]; intros st st2 outs Hf Hinv Hrun; cbn [run_requests] in Hrun.
   - inversion Hrun; subst. split; [exact Hinv|]. split; [auto|constructor].
-  - destruct (get_ruleset_step files st q Hf Hinv) as [[Hv He]|[st' [rs [He [Hinv' [Hin Hmono]]]]]]; rewrite He in Hrun.
+  - destruct (get_ruleset_step files st q Hf Hinv) as [[Hv He]|[st' [rs [He [Hinv' [Hin [Hmono _]]]]]]]; rewrite He in Hrun.
     + destruct (run_requests files st rest) as [st3 out3] eqn:Er. inversion Hrun; subst.
       destruct (IH st st2 out3 Hf Hinv Er) as [H1 [H2 H3]]. split; [exact H1|]. split; [exact H2|].
       constructor; [split; [reflexivity|exact Hv]|exact H3].
@@ -752,7 +865,8 @@ Proof.
   intros files qs st outs Hf Hrun.
   destruct (run_requests_inv files qs init_state st outs Hf (cache_inv_init files) Hrun) as [Hinv [_ Hall]].
   eapply Forall2_imp; [|exact Hall]. intros q [rs|e] H; cbn in *; [|exact H].
-  destruct (Hinv _ _ H) as [_ [Hm Hd]]. split; [exact Hd|exact Hm].
+  destruct (Hinv _ _ H) as [Hh Hm]. split; [|exact Hm].
+  destruct Hh as [_ [_ [_ [_ [_ Hd]]]]]. rewrite Hd, Hm. reflexivity.
 Qed.
 
 (* ================= selection commutes with detection and with the removal ================= *)
@@ -770,18 +884,6 @@ Lemma eval_rules_filter {R I O : Type} (cutoff_of : R -> Z) (info : Z -> I) (det
 Proof.
   rewrite !cache_transparent_nil. induction rules as [|r rest IH]; cbn [filter map combine]; [reflexivity|].
   cbn [fst]. destruct (p r); cbn [map combine]; rewrite IH; reflexivity.
-Qed.
-
-Lemma select_filter ns cs base : select ns cs base = filter (selected ns cs) base.
-Proof.
-  unfold select, selected. destruct ns as [|n ns]; destruct cs as [|c cs].
-  - induction base as [|a l IH]; cbn; [reflexivity|]. f_equal. exact IH.
-  - apply filter_ext_in'. intros a _. reflexivity.
-  - apply filter_ext_in'. intros a _. rewrite andb_true_r. reflexivity.
-  - rewrite filter_filter_comm. induction base as [|a l IH]; cbn [filter]; [reflexivity|].
-    destruct (mem (r_name a) (n :: ns)) eqn:E1; cbn [andb filter].
-    + destruct (mem (r_cat a) (c :: cs)); cbn [filter]; rewrite ?E1, IH; reflexivity.
-    + destruct (mem (r_cat a) (c :: cs)); cbn [filter]; rewrite ?E1, IH; reflexivity.
 Qed.
 
 Lemma filter_map_scale m (p : rule -> bool) l : (forall r, p (scale_rule m r) = p r) ->
@@ -839,35 +941,164 @@ Proof.
     + exfalso. apply Hnot. apply remove_redundant_spec. split; [exact Hin|]. intros Hr. apply redundant_iff in Hr. congruence.
 Qed.
 
-(* ---- what the invariant excludes: the same in-place scaling, reached through the public
-   constructors instead of get_ruleset (finding C07-K2, ruleset_copy_rescales_shared_rules) *)
-Lemma ruleset_copy_changes_source :
-  exists files q st rs h' rs',
-    get_ruleset files init_state q = Ok (st, rs) /\
-    copy_with_replacements rs (rs_rules rs) (rs_mults rs) (st_heap st) = Ok (h', rs') /\
-    deref (st_heap st) (rs_rules rs) = expected_rules files q /\
-    deref h' (rs_rules rs) <> expected_rules files q.
+(* ---- the public constructors outside get_ruleset (the class of the repaired finding C07-K2,
+   ruleset_copy_rescales_shared_rules): no constructor changes an existing object, every ruleset
+   holds the rules it was given times its own multipliers, whatever is built before or after *)
+Definition named (names : list Z) (r : rule) : bool := match names with [] => true | _ => mem (r_name r) names end.
+
+Lemma named_refs_filter h names refs : named_refs h names refs = filter (fun i => named names (h_get h i)) refs.
+Proof. unfold named_refs, named. destruct names; [symmetry; apply filter_true|reflexivity]. Qed.
+
+Lemma named_rules_filter names l : named_rules names l = filter (named names) l.
+Proof. unfold named_rules, named. destruct names; [symmetry; apply filter_true|reflexivity]. Qed.
+
+Lemma copy_named_ok : forall h rs w names m, holds h rs w -> NoDup (map r_name w) ->
+  exists h' rs', copy_with_replacements rs (named_refs h names (rs_rules rs)) m h = Ok (h', rs') /\
+                 frame h h' /\ holds h' rs' (named_rules names w) /\ rs_mults rs' = m.
 Proof.
-  pose (files := [[mkRule 7 1 20000 10000]]). pose (q := mkReq 0 [] [] true (mkMults (1, 1) (3, 2))).
-  destruct (get_ruleset files init_state q) as [[st rs]|] eqn:E; [|vm_compute in E; discriminate].
-  destruct (copy_with_replacements rs (rs_rules rs) (rs_mults rs) (st_heap st)) as [[h' rs']|] eqn:E2.
-  - exists files, q, st, rs, h', rs'. split; [exact E|]. split; [exact E2|].
-    vm_compute in E. inversion E; subst st rs; clear E. vm_compute in E2. inversion E2; subst h' rs'; clear E2.
-    split; [vm_compute; reflexivity|]. vm_compute. discriminate.
-  - vm_compute in E. inversion E; subst st rs. vm_compute in E2. discriminate.
+  intros h rs w names m Hh Hw. rewrite named_refs_filter, named_rules_filter.
+  apply copy_filter_ok; [exact Hh|exact Hw|]. intros m' r. unfold named. destruct names; reflexivity.
 Qed.
 
-Lemma from_files_scales_twice :
-  exists base m h rs,
-    NoDup (map r_name base) /\ mults_valid m = true /\
-    from_files base m (st_heap init_state) = Ok (h, rs) /\
-    deref h (rs_rules rs) <> map (scale_rule m) base /\
-    deref h (rs_rules rs) = map (scale_rule m) (map (scale_rule m) base).
+Lemma holds_deref : forall h rs w, holds h rs w -> deref h (rs_rules rs) = map (scale_rule (rs_mults rs)) w.
+Proof. intros h rs w [_ [_ [_ [_ [_ Hd]]]]]. exact Hd. Qed.
+
+Lemma Forall2_combine_In : forall {A B} (P : A -> B -> Prop) l l' a b,
+  Forall2 P l l' -> In (a, b) (combine l l') -> P a b.
 Proof.
-  pose (base := [mkRule 7 1 20000 10000]). pose (m := mkMults (1, 1) (3, 2)).
-  destruct (from_files base m (st_heap init_state)) as [[h rs]|] eqn:E; [|vm_compute in E; discriminate].
-  exists base, m, h, rs. split; [repeat constructor; intros []|]. split; [reflexivity|]. split; [exact E|].
-  vm_compute in E. inversion E; subst h rs; clear E. split; [vm_compute; discriminate|vm_compute; reflexivity].
+  intros A B P l l' a b F. induction F as [|x y l l' Hxy F IH]; cbn; [intros []|].
+  intros [He|Hin]; [inversion He; subst; exact Hxy|apply IH; exact Hin].
+Qed.
+
+(* after any history of get_ruleset calls, a copy (any sub-selection by names, any multipliers) of
+   any ruleset handed out holds its own selection times its own multipliers and leaves every
+   ruleset handed out as it was *)
+Lemma ruleset_copy_history : forall files qs st outs, files_ok files ->
+  run_requests files init_state qs = (st, outs) ->
+  forall q rs names m, In (q, Ok rs) (combine qs outs) ->
+  exists h' rs', copy_with_replacements rs (named_refs (st_heap st) names (rs_rules rs)) m (st_heap st) = Ok (h', rs') /\
+    deref h' (rs_rules rs') = map (scale_rule m) (named_rules names (select (q_names q) (q_cats q) (rule_files files (q_strict q)))) /\
+    rs_mults rs' = m /\
+    Forall2 (answer_ok files (mkState h' (st_cache st))) qs outs.
+Proof.
+  intros files qs st outs Hf Hrun q rs names m Hin.
+  destruct (run_requests_inv files qs init_state st outs Hf (cache_inv_init files) Hrun) as [Hinv [_ Hall]].
+  pose proof (Forall2_combine_In _ _ _ _ _ Hall Hin) as Hc. cbn in Hc.
+  destruct (Hinv _ _ Hc) as [Hh Hm]. cbn [key_of k_names k_cats k_strict k_mults] in Hh.
+  destruct (copy_named_ok (st_heap st) rs _ names m Hh) as [h' [rs' [Hcopy [Hfr [Hh' Hm']]]]].
+  { apply select_names_nodup. apply Hf. }
+  exists h', rs'. split; [exact Hcopy|]. split; [rewrite (holds_deref _ _ _ Hh'), Hm'; reflexivity|]. split; [exact Hm'|].
+  eapply Forall2_imp; [|exact Hall]. intros q' [rs''|e] H; cbn in *; [|exact H].
+  destruct (Hinv _ _ H) as [Hh'' Hm'']. split; [|exact Hm''].
+  rewrite (holds_deref _ _ _ (holds_frame _ _ _ _ Hh'' Hfr)), Hm''. reflexivity.
+Qed.
+
+(* Ruleset.from_files(..., multipliers=m): the multipliers are applied once *)
+Lemma from_files_scales_once : forall base m h, NoDup (map r_name base) ->
+  exists h' rs, from_files base m h = Ok (h', rs) /\ deref h' (rs_rules rs) = map (scale_rule m) base /\ rs_mults rs = m /\
+                forall j, (j < h_next h)%nat -> h_get h' j = h_get h j.
+Proof.
+  intros base m h Hb. destruct (from_files_ok base m h Hb) as [h' [rs [Hff [Hf [Hh Hm]]]]].
+  exists h', rs. split; [exact Hff|]. split; [rewrite (holds_deref _ _ _ Hh), Hm; reflexivity|]. split; [exact Hm|apply Hf].
+Qed.
+
+(* the constructor itself over rule objects that others hold (another ruleset, the caller) *)
+Lemma ruleset_init_shared : forall refs m h, (forall i, In i refs -> (i < h_next h)%nat) ->
+  NoDup (map r_name (deref h refs)) ->
+  exists h' rs, ruleset_init refs m h = Ok (h', rs) /\ deref h' (rs_rules rs) = map (scale_rule m) (deref h refs) /\
+                rs_mults rs = m /\ forall j, (j < h_next h)%nat -> h_get h' j = h_get h j.
+Proof.
+  intros refs m h Hlt Hn. destruct (ruleset_init_holds refs m h Hlt Hn) as [h' [rs [Hi [Hf [Hh Hm]]]]].
+  exists h', rs. split; [exact Hi|]. split; [rewrite (holds_deref _ _ _ Hh), Hm; reflexivity|]. split; [exact Hm|apply Hf].
+Qed.
+
+(* any sequence of from_files / copy_with_replacements / Ruleset(...) calls *)
+Definition made_ok (h : heap) (o : res ruleset) (s : option (list rule * mults)) : Prop :=
+  match o, s with
+  | Ok rs, Some (w, m) => holds h rs w /\ rs_mults rs = m /\ NoDup (map r_name w)
+  | Err e, None => e = E_Index
+  | _, _ => False
+  end.
+
+Lemma made_ok_frame : forall h h' o s, frame h h' -> made_ok h o s -> made_ok h' o s.
+Proof.
+  intros h h' [rs|e] [[w m]|] Hf H; cbn in *; try exact H.
+  destruct H as [Hh [Hm Hn]]. split; [apply (holds_frame _ _ _ _ Hh Hf)|auto].
+Qed.
+
+Lemma made_extend : forall h h' made spec o s, Forall2 (made_ok h) made spec -> frame h h' -> made_ok h' o s ->
+  Forall2 (made_ok h') (made ++ [o]) (spec ++ [s]).
+Proof.
+  intros h h' made spec o s F Hf Ho. apply Forall2_app; [|constructor; [exact Ho|constructor]].
+  eapply Forall2_imp; [|exact F]. intros a b H. apply (made_ok_frame h h'); assumption.
+Qed.
+
+Lemma Forall2_nth_error : forall {A B} (P : A -> B -> Prop) l l', Forall2 P l l' -> forall n,
+  match nth_error l n, nth_error l' n with
+  | Some a, Some b => P a b
+  | None, None => True
+  | _, _ => False
+  end.
+Proof.
+  intros A B P l l' F. induction F as [|x y l l' Hxy F IH]; intros [|n]; cbn; auto. apply IH.
+Qed.
+
+Lemma run_api_inv : forall files ops h made spec h' made', files_ok files -> Forall2 (made_ok h) made spec ->
+  run_api files h made ops = (h', made') -> Forall2 (made_ok h') made' (api_spec files spec ops).
+Proof.
+  intros files. induction ops as [|op rest IH]; intros h made spec h' made' Hfiles F Hrun; cbn [run_api api_spec] in *.
+  - inversion Hrun; subst. exact F.
+  - destruct op as [s m|j names keep m|j names m].
+    + destruct (from_files_ok (rule_files files s) m h (Hfiles s)) as [h1 [rs [Hff [Hf [Hh Hm]]]]].
+      rewrite Hff in Hrun. refine (IH h1 _ _ h' made' Hfiles _ Hrun).
+      apply (made_extend h h1); [exact F|exact Hf|]. cbn. split; [exact Hh|]. split; [exact Hm|apply Hfiles].
+    + pose proof (Forall2_nth_error _ _ _ F (Z.to_nat j)) as Hj.
+      destruct (nth_error made (Z.to_nat j)) as [[rs|e]|]; destruct (nth_error spec (Z.to_nat j)) as [[[w mj]|]|];
+        cbn in Hj; try contradiction.
+      * destruct Hj as [Hh [Hm Hn]].
+        destruct (copy_named_ok h rs w names (if keep then rs_mults rs else m) Hh Hn) as [h1 [rs' [Hc [Hf [Hh' Hm']]]]].
+        rewrite Hc in Hrun. refine (IH h1 _ _ h' made' Hfiles _ Hrun).
+        apply (made_extend h h1); [exact F|exact Hf|]. cbn. split; [exact Hh'|]. split.
+        { rewrite Hm', Hm. reflexivity. }
+        rewrite named_rules_filter. apply NoDup_map_filter. exact Hn.
+      * refine (IH h _ _ h' made' Hfiles _ Hrun).
+        apply (made_extend h h); [exact F|apply frame_refl|reflexivity].
+      * refine (IH h _ _ h' made' Hfiles _ Hrun).
+        apply (made_extend h h); [exact F|apply frame_refl|reflexivity].
+    + pose proof (Forall2_nth_error _ _ _ F (Z.to_nat j)) as Hj.
+      destruct (nth_error made (Z.to_nat j)) as [[rs|e]|]; destruct (nth_error spec (Z.to_nat j)) as [[[w mj]|]|];
+        cbn in Hj; try contradiction.
+      * destruct Hj as [Hh [Hm Hn]].
+        assert (Hd : deref h (named_refs h names (rs_rules rs)) = named_rules names (map (scale_rule mj) w)).
+        { rewrite named_refs_filter, named_rules_filter, (deref_filter h (named names)), (holds_deref _ _ _ Hh), Hm. reflexivity. }
+        destruct (ruleset_init_holds (named_refs h names (rs_rules rs)) m h) as [h1 [rs' [Hi [Hf [Hh' Hm']]]]].
+        { intros i Hi. rewrite named_refs_filter in Hi. apply filter_In in Hi. destruct Hi as [Hi _].
+          destruct Hh as [Ho _]. apply Ho. exact Hi. }
+        { rewrite Hd, named_rules_filter. apply NoDup_map_filter. rewrite map_name_scale. exact Hn. }
+        rewrite Hi in Hrun. refine (IH h1 _ _ h' made' Hfiles _ Hrun).
+        apply (made_extend h h1); [exact F|exact Hf|]. cbn. rewrite Hd in Hh'. split; [exact Hh'|]. split; [exact Hm'|].
+        rewrite named_rules_filter. apply NoDup_map_filter. rewrite map_name_scale. exact Hn.
+      * refine (IH h _ _ h' made' Hfiles _ Hrun).
+        apply (made_extend h h); [exact F|apply frame_refl|reflexivity].
+      * refine (IH h _ _ h' made' Hfiles _ Hrun).
+        apply (made_extend h h); [exact F|apply frame_refl|reflexivity].
+Qed.
+
+Definition api_answer_ok (h : heap) (o : res ruleset) (s : option (list rule * mults)) : Prop :=
+  match o, s with
+  | Ok rs, Some (w, m) => deref h (rs_rules rs) = map (scale_rule m) w /\ rs_mults rs = m
+  | Err e, None => e = E_Index
+  | _, _ => False
+  end.
+
+Lemma constructors_history : forall files ops h made, files_ok files ->
+  run_api files (st_heap init_state) [] ops = (h, made) ->
+  Forall2 (api_answer_ok h) made (api_spec files [] ops).
+Proof.
+  intros files ops h made Hf Hrun.
+  pose proof (run_api_inv files ops _ [] [] h made Hf (Forall2_nil _) Hrun) as H.
+  eapply Forall2_imp; [|exact H]. intros [rs|e] [[w m]|] Hok; cbn in *; try exact Hok.
+  destruct Hok as [Hh [Hm _]]. split; [|exact Hm]. rewrite (holds_deref _ _ _ Hh), Hm. reflexivity.
 Qed.
 
 (* ---- the cache: a repeated request is answered with the same ruleset and changes nothing *)
